@@ -128,7 +128,7 @@ type netw struct {
 func newNet(w *world) *netw {
 	nw := &netw{w: w, seen: map[string]int{}, fins: map[uint64]map[string][]int{}, ignoredTimers: map[*hTimer]bool{}}
 	for i := 0; i < 3; i++ {
-		n := &node{w: w, keyIdx: i, name: fmt.Sprintf("n%d", i), auto: &lockStrategy{locked: map[uint64]string{}}, autoFin: true}
+		n := &node{w: w, keyIdx: i, name: fmt.Sprintf("n%d", i), auto: &lockStrategy{locked: map[uint64]string{}}}
 		n.st = newNodeStores(w)
 		n.start()
 		nw.nodes = append(nw.nodes, n)
@@ -234,6 +234,14 @@ func (nw *netw) deliver(d *delivery) string {
 
 // defaultAction: FIFO delivery; when nothing is left to deliver, fire the oldest outstanding timer (lowest node first).
 func (nw *netw) defaultAction() (string, func() string) {
+	// Drivers answer finalization requests first (as a separate step, so that the request itself is observed
+	// by the agreement oracle before anything else happens).
+	for i, n := range nw.nodes {
+		if n.e != nil && len(n.pendingFin) > 0 {
+			n := n
+			return fmt.Sprintf("FIN:%d:%d", i, n.pendingFin[0].Header.Height), func() string { return n.finalize() }
+		}
+	}
 	for _, d := range nw.queue {
 		if !d.done {
 			d := d
@@ -426,6 +434,112 @@ func (nw *netw) deviation(op string) (res string, consumeDefault bool) {
 	panic("unknown net deviation " + op)
 }
 
+// advState drives the scripted adversary "missing-proposal": a correct node (the victim, node 2) never receives the
+// honest proposal of 1/0 but a competing block from the Byzantine validator, which also prevotes it there, while
+// the rest of the network (helped by Byzantine votes for the honest block) commits the honest block; the victim
+// learns of the commit through precommits only and waits for the header. A classic split-view attack; every
+// single deviation is then explored on top of it.
+type advState struct {
+	fed, votedA, precommittedA, poked bool
+	droppedPV                         int
+}
+
+func (nw *netw) adversary(st *advState) (did []string, consume bool) {
+	const victim = 2
+	w := nw.w
+	var next *delivery
+	for _, d := range nw.queue {
+		if !d.done {
+			next = d
+			break
+		}
+	}
+	honestA := ""
+	for _, m := range nw.msgs {
+		if m.kind == "ph" && m.h == initialH && m.r == 0 && m.from >= 0 && m.from != victim {
+			honestA = string(m.ph.Header.Hash)
+		}
+	}
+	byz := func(kind byte, target string, tos ...int) {
+		sg := w.voteSig(kind, initialH, 0, target, byzIdx)
+		pkh := string(w.VS(initialH).PubKeyHash)
+		proofs := map[string][]gcrypto.SparseSignature{target: {sg}}
+		for _, to := range tos {
+			n := nw.nodes[to]
+			if n.e == nil {
+				continue
+			}
+			if kind == 'p' {
+				msg := tmconsensus.PrevoteSparseProof{Height: initialH, Round: 0, PubKeyHash: pkh, Proofs: proofs}
+				n.call("HandlePrevoteProofs", func(ctx context.Context) string { return n.e.HandlePrevoteProofs(ctx, msg).String() })
+			} else {
+				msg := tmconsensus.PrecommitSparseProof{Height: initialH, Round: 0, PubKeyHash: pkh, Proofs: proofs}
+				n.call("HandlePrecommitProofs", func(ctx context.Context) string { return n.e.HandlePrecommitProofs(ctx, msg).String() })
+			}
+		}
+	}
+	if next != nil {
+		m := nw.msgs[next.msg]
+		if m.h == initialH && m.r == 0 && next.to == victim {
+			if m.kind == "ph" && string(m.ph.Header.Hash) == honestA {
+				next.done = true
+				did = append(did, "adv: drop honest proposal to the victim")
+				if !st.fed {
+					st.fed = true
+					if ph, ok := nw.byzProposal(initialH, 0, "B", victim); ok {
+						v := nw.nodes[victim]
+						v.call("HandleProposedHeader", func(ctx context.Context) string { return v.e.HandleProposedHeader(ctx, ph).String() })
+						v.fireTimer()
+						synctest.Wait()
+						byz('p', string(ph.Header.Hash), victim)
+						did = append(did, "adv: Byzantine proposal and prevote for it to the victim, its proposal timer fires")
+					}
+				}
+				return did, true
+			}
+			if m.kind == "p" && m.target == honestA && honestA != "" {
+				// The victim sees at most one prevote for the honest block.
+				cnt := 0
+				for _, d := range nw.queue {
+					mm := nw.msgs[d.msg]
+					if d.done && d.to == victim && mm.kind == "p" && mm.h == initialH && mm.r == 0 && mm.target == honestA && d != next {
+						cnt++
+					}
+				}
+				if cnt >= 1 || st.droppedPV == 0 {
+					st.droppedPV++
+					next.done = true
+					return append(did, "adv: drop a prevote for the honest block to the victim"), true
+				}
+			}
+		}
+	}
+	if honestA != "" && !st.votedA {
+		st.votedA = true
+		byz('p', honestA, 0, 1)
+		did = append(did, "adv: Byzantine prevote for the honest block to nodes 0 and 1")
+	}
+	if honestA != "" && st.votedA && !st.precommittedA {
+		n := 0
+		for _, m := range nw.msgs {
+			if m.kind == "c" && m.h == initialH && m.r == 0 && m.target == honestA {
+				n++
+			}
+		}
+		if n >= 2 {
+			st.precommittedA = true
+			byz('c', honestA, 0, 1, victim)
+			did = append(did, "adv: Byzantine precommit for the honest block to everyone")
+		}
+	}
+	if st.precommittedA && !st.poked && next == nil {
+		st.poked = true
+		byz('p', "", victim)
+		did = append(did, "adv: a late Byzantine nil prevote to the victim (one more view update)")
+	}
+	return did, false
+}
+
 func init() {
 	registry.Execs["net"] = execNet
 }
@@ -529,16 +643,32 @@ func runNet(job vx.Job) (res vx.Result) {
 	}
 	nw.collect()
 	check(0)
+	var adv *advState
+	if job.Args["adversary"] == "missing-proposal" {
+		adv = &advState{}
+	}
 	steps := 0
 	for ; steps < maxSteps; steps++ {
 		for _, n := range nw.nodes {
 			n.step = steps
 		}
 		consumed := false
+		if adv != nil {
+			did, c := nw.adversary(adv)
+			if len(did) > 0 {
+				synctest.Wait()
+				for _, d := range did {
+					nw.trace = append(nw.trace, fmt.Sprintf("s%d %s", steps, d))
+				}
+				nw.collect()
+				check(steps)
+			}
+			consumed = c
+		}
 		for _, op := range devs[steps] {
 			r, c := nw.deviation(op)
 			synctest.Wait()
-			nw.trace = append(nw.trace, op+" => "+r)
+			nw.trace = append(nw.trace, fmt.Sprintf("s%d %s => %s", steps, op, r))
 			consumed = consumed || c
 			nw.collect()
 			check(steps)
@@ -550,9 +680,21 @@ func runNet(job vx.Job) (res vx.Result) {
 			}
 			r := act()
 			synctest.Wait()
-			nw.trace = append(nw.trace, name+" => "+r)
+			nw.trace = append(nw.trace, fmt.Sprintf("s%d %s => %s", steps, name, r))
 			nw.collect()
 			check(steps)
+		}
+		// A disagreement is final: stop here, so that a later crash of the (already wrong) node cannot take the
+		// finding down with the worker.
+		agree := true
+		for _, v := range res.Viol {
+			if v.Prop == "C03" {
+				agree = false
+			}
+		}
+		if !agree {
+			steps++
+			break
 		}
 		done := true
 		for _, seq := range nw.finSeq {
